@@ -740,6 +740,9 @@ def convert_trace(events: list[dict[str, Any]]) -> tuple[str | None, list[str], 
     recv_at: dict[int, int] = {}
     submit_at: dict[int, int] = {}
     open_impl: dict[int, tuple[int, list[str], bool]] = {}     # worker -> (event index, modules, committed?)
+    blocker_at: int | None = None
+    n_model_at_blocker = 0
+    blocker_recv: int | None = None
 
     def close_impl(w: int, at: int) -> None:
         o = open_impl.pop(w, None)
@@ -762,6 +765,8 @@ def convert_trace(events: list[dict[str, Any]]) -> tuple[str | None, list[str], 
             fresh += e["fresh"]
             mev.append({"c": "EClassify", "o1": e["ready"], "o2": [], "i": i})
         elif k == "submit":
+            if blocker_recv is not None:
+                probs.append(f"event {i}: batch submitted after the coordinator had received a blocker reply")
             for s in e["sccs"]:
                 submit_at[s] = i
             mev.append({"c": f"ESubmit {e['w']} {coq_list(e['sccs'])}", "o1": e["queue_after"], "o2": e["free_after"], "i": i})
@@ -791,9 +796,14 @@ def convert_trace(events: list[dict[str, Any]]) -> tuple[str | None, list[str], 
         elif k == "commit":
             mev.append({"c": f"EImpl {e['w']}", "o1": [], "o2": [], "i": i})
         elif k == "send":
-            mev.append({"c": ("ESendIface" if e["kind"] == "iface" else "ESendImpl") + f" {e['w']}", "o1": [], "o2": [], "i": i})
             if e.get("blocker"):
-                probs.append(f"event {i}: blocker reply (not modelled)")
+                if blocker_at is None:
+                    blocker_at = i
+                    n_model_at_blocker = len(mev)
+                continue
+            mev.append({"c": ("ESendIface" if e["kind"] == "iface" else "ESendImpl") + f" {e['w']}", "o1": [], "o2": [], "i": i})
+        elif k == "recv" and e.get("blocker"):
+            blocker_recv = i
         elif k == "recv":
             if e["kind"] == "iface":
                 for s in e["sccs"]:
@@ -807,11 +817,17 @@ def convert_trace(events: list[dict[str, Any]]) -> tuple[str | None, list[str], 
                 if got != want:
                     probs.append(f"event {i}: interface reply of worker {e['w']} carries hashes that differ from the committed ones")
             mev.append({"c": f"ERecv {e['w']}", "o1": [0 if e["kind"] == "iface" else 1], "o2": e["sccs"], "i": i})
-    if not any(e["ev"] == "end" for e in events):
+    if blocker_at is not None:
+        # abort on a blocking error: validate the prefix before the blocker reply (Blocker.v: the coarse part of such a run is a
+        # run of the scheduler model); nothing may be submitted after the coordinator read the blocker
+        mev = mev[:n_model_at_blocker]
+        pending.clear()
+    elif not any(e["ev"] == "end" for e in events):
         probs.append("trace has no end event (process_graph did not return)")
     deps_fn = "(fun s => match s with " + " ".join(f"| {s} => {coq_list(deps[s])}" for s in nodes) + " | _ => [] end)"
     evs = "[" + "; ".join(f"({m['c']}, ({coq_list(m['o1'])}, {coq_list(m['o2'])}))" for m in mev) + "]"
-    expr = f"validate {coq_list(nodes)} {deps_fn} {coq_list(sorted(set(fresh)))} {n} {evs}"
+    fn = "validate_prefix" if blocker_at is not None else "validate"
+    expr = f"{fn} {coq_list(nodes)} {deps_fn} {coq_list(sorted(set(fresh)))} {n} {evs}"
     return expr, probs, mev
 
 
@@ -891,6 +907,80 @@ def stage_C(ctx: vlib.Ctx, traces: list[dict[str, Any]]) -> None:
 
 
 # ------------------------------------------------------------------------------------------------
+# S (blockers): a blocking error found by a WORKER (module-level `break`: raised by semantic analysis; syntax errors are
+# raised by the coordinator while loading the graph, before any scheduling, and are covered by the ordinary programs' flow)
+
+BLOCKER_KEY = "blocker:nonblocking-diagnostics-dropped"
+
+
+def stage_B(ctx: vlib.Ctx, work: str) -> list[dict[str, Any]]:
+    nb = int(os.environ.get("C07_NBLOCK", ctx.n(3, 12)))
+    traces: list[dict[str, Any]] = []
+    stats = {"programs": nb, "runs": 0, "status_2": 0, "full_output_equal": 0, "output_differs": 0}
+
+    def one(k: int) -> list[dict[str, Any]]:
+        rng = vlib.Rng(ctx.seed, f"c07block{k}")
+        p = gen_program(ctx.seed, 200 + k)
+        n = len(p.mods)
+        cand = [m for m in p.mods if p.deps[m] and any(m in p.deps[x] for x in p.mods)] or p.mods   # mid-DAG
+        bmod = rng.choice(cand)
+        bpath = bmod.replace(".", "/") + ".py"
+        root = os.path.join(work, f"blk{k}", "t")
+        out: list[dict[str, Any]] = []
+        files_b = dict(p.files)
+        files_b[bpath] = p.files[bpath] + "break\n"
+        files_r = dict(p.files)
+        files_r[bpath] = p.files[bpath] + "pass\n"
+        write_tree(root, files_r)
+        rr = run_mypy(root, p.srcs, 0, os.path.join(work, f"blk{k}", "c-r"))
+        write_tree(root, files_b)
+        seq = run_mypy(root, p.srcs, 0, os.path.join(work, f"blk{k}", "c-seq"))
+        allowed = set(rr.out) | set(seq.out)
+        bl_seq = [ln for ln in seq.out if ln.startswith(bpath + ":")]
+        for j, nn in enumerate([1, 2, 3][: ctx.n(2, 3)]):
+            tr = os.path.join(work, f"blk{k}", f"trace{j}.jsonl")
+            par = run_mypy(root, p.srcs, nn, os.path.join(work, f"blk{k}", f"c-par{j}"), sched=f"b{ctx.seed}-{k}-{j}", trace=tr)
+            rec = {"n": nn, "fails": [], "equal": canon(par.out) == canon(seq.out) and par.status == seq.status,
+                   "par": par, "seq": seq, "prog": p, "bpath": bpath, "files": files_b}
+            if par.timed_out:
+                rec["fails"].append("run did not terminate")
+            if par.status != seq.status:
+                rec["fails"].append(f"exit status {par.status} vs sequential {seq.status}")
+            if [ln for ln in par.out if ln.startswith(bpath + ":")] != bl_seq:
+                rec["fails"].append("blocker lines differ from the sequential build")
+            extra = [ln for ln in par.out if ln not in allowed]
+            if extra:
+                rec["fails"].append("diagnostic that no sequential build prints: " + extra[0][:200])
+            if par.err.strip() and not seq.err.strip():
+                rec["fails"].append("stderr: " + par.err.strip()[-300:])
+            out.append(rec)
+            traces.append({"case": f"blocker/{p.name}/n{nn}", "v": 0, "n": nn, "events": load_trace(tr), "ok_run": True,
+                           "status": par.status})
+        if not os.environ.get("C07_KEEP"):
+            shutil.rmtree(os.path.join(work, f"blk{k}"), ignore_errors=True)
+        return out
+
+    with ThreadPoolExecutor(max_workers=4) as ex:
+        recs = [r for lst in ex.map(one, range(nb)) for r in lst]
+    for r in recs:
+        stats["runs"] += 1
+        stats["status_2"] += r["par"].status == 2
+        stats["full_output_equal" if r["equal"] else "output_differs"] += 1
+        p: Program = r["prog"]
+        for f in r["fails"]:
+            ctx.violation(f"blocker-run:{p.name}/n{r['n']}:{f[:40]}", f"program with a worker-side blocking error, -n {r['n']}: {f}",
+                          {"kind": "blocker", "files": r["files"], "srcs": p.srcs, "n": r["n"], "diff": diff_txt(r["par"], r["seq"])})
+        if not r["equal"] and not r["fails"]:
+            # Properties.blocker_run_reports_sequential_blocker_refuted, reproduced on the implementation
+            ctx.violation(BLOCKER_KEY, "with a blocking error found in a worker, mypy -n N drops non-blocking diagnostics of other modules "
+                          "that the sequential build prints before the blocker (which ones depends on batching and reply order; exit status 2 in both)",
+                          {"kind": "blocker", "files": r["files"], "srcs": p.srcs, "n": r["n"], "diff": diff_txt(r["par"], r["seq"])})
+    ctx.cov["S_blocker"] = stats
+    ctx.add("evaluations", stats["runs"])
+    return traces
+
+
+# ------------------------------------------------------------------------------------------------
 # entry points
 
 def run(ctx: vlib.Ctx) -> None:
@@ -907,17 +997,29 @@ def run(ctx: vlib.Ctx) -> None:
         "an O_APPEND log written with one write(2) per event linearises the events of coordinator and workers consistently "
         "with real time (Linux, local file system)",
         "shim raises WORKER_START_TIMEOUT from 3 s to 120 s (environment limit, not scheduling logic)",
-        "blocking errors (CompileError replies) and worker crashes are not modelled; generated programs have none",
+        "blocking errors and worker crashes are modelled as an overlay (Blocker.v); syntax errors are raised by the coordinator before scheduling",
         "queue policy (heap by (-size, order), batch size limit) is abstracted to 'any non-empty subset of the queue'; "
         "the theorems hold for every such choice, the real choice is checked to be one",
         "cache maps are compared except trans_dep_hash (parallel workers write it empty; a later warm run then takes the "
         "slower exhaustive branch of verify_transitive_deps) and like for like with a sequential build of the same history "
         "in the same directory (serialized trees embed absolute paths)",
     ]
+    # T: which commit protocol do the per-module loops follow? (regenerates coq/gen/C07Protocol.v; fail-closed)
+    try:
+        from extractors import t07
+        flags = t07.extract()
+        t07.generate()
+        ctx.cov["T_protocol"] = flags
+        if not (flags["pm_iface"] and flags["pm_impl"]):
+            ctx.log("T: the source no longer commits each module at the end of the per-module loops: "
+                    "Properties.lock_released_per_module_refuted applies (current_code_commits_per_module will not check)")
+    except Exception as e:  # noqa
+        ctx.broke("T", "t07 (commit protocol of the per-module loops)", repr(e))
     ctx.prove("C07/Properties.v", ["C07"])
     work = tempfile.mkdtemp(prefix="c07-")
     try:
         traces = stage_S(ctx, work)
+        traces += stage_B(ctx, work)
         stage_C(ctx, traces)
         nontriv = sum(1 for n in ctx.cov.get("S_reference_diagnostic_files", []) if n >= 2)
         ctx.cov["distinct_nontrivial"] = nontriv * int(os.environ.get("C07_PER", ctx.n(3, 7)))
@@ -931,6 +1033,19 @@ def run(ctx: vlib.Ctx) -> None:
 def replay(ctx: vlib.Ctx, path: str) -> None:
     d = json.load(open(path))
     r = d["replay"]
+    if r.get("kind") == "blocker":
+        work = tempfile.mkdtemp(prefix="c07-replay-")
+        try:
+            root = os.path.join(work, "t")
+            write_tree(root, r["files"])
+            seq = run_mypy(root, r["srcs"], 0, os.path.join(work, "c0"))
+            par = run_mypy(root, r["srcs"], r["n"], os.path.join(work, "c1"))
+            ctx.log("sequential:\n" + "\n".join(seq.out) + f"\nexit {seq.status}\nparallel -n {r['n']}:\n" + "\n".join(par.out) + f"\nexit {par.status}")
+            if canon(seq.out) != canon(par.out) or seq.status != par.status:
+                ctx.violation(d["key"], d["what"], r)
+        finally:
+            shutil.rmtree(work, ignore_errors=True)
+        return
     if r.get("kind") != "case":
         ctx.log("nothing to replay (broken obligation record)")
         for b in d.get("broken", []):
